@@ -944,7 +944,12 @@ impl<'a, 'b> Gen<'a, 'b> {
         let mut stmts = vec![];
         for _ in 0..n {
             if let Some(s) = self.stmt() {
+                // nothing follows an unconditional `return;` (see fn_body)
+                let ends = matches!(s, Stmt::Return(None));
                 stmts.push(s);
+                if ends {
+                    break;
+                }
             }
         }
         self.vars.truncate(mark);
@@ -1322,7 +1327,14 @@ impl<'a, 'b> Gen<'a, 'b> {
         let mut stmts = vec![];
         for _ in 0..n {
             if let Some(s) = self.stmt() {
+                // Known finding C05 (verifier assertion `instruction_offsets.contains(target)`): a loop that is the
+                // last thing of a body after an unconditional `return;` makes the bytecode generator bind the loop's
+                // end label behind the last instruction. Excluded by construction: nothing follows `return;`.
+                let ends = matches!(s, Stmt::Return(None));
                 stmts.push(s);
+                if ends {
+                    break;
+                }
             }
         }
         let tail = if *ret == Ty::Unit { None } else { Some(self.expr(ret)) };
@@ -1335,13 +1347,23 @@ impl<'a, 'b> Gen<'a, 'b> {
     }
 
     fn gen_types(&mut self) {
-        let ne = self.c.below(3);
+        let ne = self.c.below(4);
         for i in 0..ne {
             let nv = 1 + self.c.below(4);
             let mut variants = vec![];
             for v in 0..nv {
                 let np = self.c.weighted(&[3, 3, 2]);
-                let ts = (0..np).map(|_| if self.c.chance(3, 4) { self.scalar_ty() } else { Ty::Tuple(vec![Ty::I64, Ty::Bool]) }).collect();
+                // payloads: scalars, a tuple, earlier enums, options of scalars / earlier enums (layout-relevant:
+                // an enum with one payload-free and one single-payload variant may be represented as a nullable pointer)
+                let ts = (0..np)
+                    .map(|_| match self.c.weighted(&[9, 3, if i > 0 { 2 } else { 0 }, 2, if i > 0 { 1 } else { 0 }]) {
+                        0 => self.scalar_ty(),
+                        1 => Ty::Tuple(vec![Ty::I64, Ty::Bool]),
+                        2 => Ty::Enum(self.c.below(i)),
+                        3 => Ty::Opt(Box::new(self.scalar_ty())),
+                        _ => Ty::Opt(Box::new(Ty::Enum(self.c.below(i)))),
+                    })
+                    .collect();
                 variants.push((format!("V{v}"), ts));
             }
             self.p.enums.push(EnumDef { name: format!("E{i}"), variants });
